@@ -768,11 +768,15 @@ class Interp:
             self.exec_block(st.orelse, fr)
 
     def _while_with_invariant(self, st, fr, inv):
+        """while <test>: partial correctness (termination is not an obligation).  inv.inv(I, fr, None, None) is the invariant
+        at the loop head; inv.mode is 'prove' for goals and 'assume' for hypotheses, as for `for` loops."""
         ctx = self.ctx
+        inv.mode = 'prove'
         for nm, g in inv.inv(self, fr, None, None):
             ctx.oblige('loop%d.init.%s' % (inv.ordinal, nm), g, kind='invariant')
         mode = ctx.branch(ctx.fresh_bool('loopbody%d' % inv.ordinal))
         inv.havoc(self, fr, None, None)
+        inv.mode = 'assume'
         for nm, g in inv.inv(self, fr, None, None):
             ctx.assume(g)
         t = self.S.truth(self.eval(st.test, fr))
@@ -784,11 +788,15 @@ class Interp:
                 pass
             except BreakSig:
                 raise Unsupported('break inside loop with invariant')
-            for nm, g in inv.inv(self, fr, None, None):
-                ctx.oblige('loop%d.step.%s' % (inv.ordinal, nm), g, kind='invariant')
+            inv.mode = 'prove'
+            goals = list(inv.inv(self, fr, None, None))
+            for f in inv.step_lemmas(self, fr, None, None):
+                ctx.fact(f, lemma=True)
+            ctx.oblige_seq(goals, 'loop%d.step' % inv.ordinal, kind='invariant')
             raise Abort()
         else:
             ctx.assume(self.S.not_(t) if not isinstance(t, bool) else (not t))
+            inv.at_exit(self, fr, None)
             self.exec_block(st.orelse, fr)
 
     # ------------------------------------------------------------------ calls
